@@ -1,5 +1,6 @@
 """C09 — per-property knobs of ./check (see DESIGN.md §6 C09)."""
-THEOREMS_TIED = ["Rustic.Props.C09.apply_eq_spec", "Rustic.Props.C09.kept_iff_rule"]
+THEOREMS_TIED = ["Rustic.Props.C09.apply_eq_spec", "Rustic.Props.C09.kept_iff_rule", "Rustic.Props.C09.period_contiguous_fixed_offset",
+                 "Rustic.Props.C09.delete_after_boundary"]
 
 TRUSTED = [
     "hand-written model lean/Rustic/Model/Forget.lean of commands/forget.rs (KeepOptions::{is_valid,matches,apply}, equal_*) and snapshotfile.rs (must_keep, must_delete, Ord, StringList::matches)",
@@ -10,17 +11,18 @@ TRUSTED = [
 ]
 ASSUMPTIONS = [
     "snapshot time zones are fixed offsets (what a stored snapshot's RFC 3339 time carries); tz-database zones with DST transitions are outside the calendar model",
-    "heads_are_period_newest / rank_eq_distinct_periods assume equal period keys are contiguous in the newest-first order (true when all snapshots of a group share one offset; mixed offsets are run through the correspondence but not covered by these two corollaries)",
+    "equal period keys are contiguous in the newest-first order: PROVED from the calendar model when all snapshots of a group share one zone offset (period_contiguous_fixed_offset, heads_are_period_newest_fixed_offset) and, for any offsets, when the list is ordered by local wall-clock time (period_contiguous_local_order); for mixed offsets ordered by instant it is a genuine hypothesis of heads_are_period_newest / rank_counts_newer_periods (witness period_contiguous_fails_with_mixed_offsets, replayed from corpus/C09/witnesses.ops); mixed offsets are still run through the correspondence",
+    "the theorems about period keys speak about snapshots whose civil fields are those of their own Zoned (Snap.CivilOk); the driver builds every snapshot that way (Snap.ofInstant) and the cal channel compares those fields with jiff",
 ]
 RULE = ("ops from harness/src/c09.rs (one splitmix64 PRNG, VERIF_SEED): `apply` cases = 0..60 snapshots whose instants cluster (±1 ns … ±years) around minute/hour/day/"
         "ISO-week/month/quarter/half-year/year boundaries and ISO week-year edge days of 24 years, 10 zone offsets (also mixed inside a case), duplicate instants, tags, "
         "id prefixes, delete-never/delete-after marks, trees for delete-unchanged x random subsets of the 9 keep counts (-1, 0, small, i32 extremes), 9 keep-within spans "
         "(h/d/w/mo/y mixes, zero, negative, saturating), keep-tags, keep-ids, keep-none, no option at all; `cal`/`eq`/`add` = calendar fields, the 8 period predicates and "
         "span addition at the same boundaries plus a dense sweep of Dec 24–Jan 8 and month ends of every year in range. Non-trivial = apply case with >= 2 snapshots and "
-        "both a kept and a removed one, or any cal/eq/add case; distinct by hash of (op, observation).")
+        "both a kept and a removed one, or any cal/eq/add/mark case; `mark` = must_keep / must_delete / ForgetGroups::from_snapshots on one delete mark with `now` exactly at, one ns / one s around, and far from the delete-after time, any two zone offsets; distinct by hash of (op, observation).")
 EXPLANATION = ("Theorems: the counter loop of KeepOptions::apply equals the declarative rank specification (apply_eq_spec) and a snapshot is kept exactly when a stated rule "
                "applies (kept_iff_rule); each equal_X is equality of the documented period key; heads are the newest snapshots of their period and the rank counts distinct "
-               "newer periods; raising a count never removes; expired removed, protected kept. Correspondence: real apply output (order, keep flag, reasons) equals the "
+               "newer periods — with contiguity of equal keys DERIVED from the calendar for one zone offset (every period key is a convex function of the local second: year monotone in the day number, month monotone within a year, 1 January not after the day; one finite evaluation: the year-of-era formula at the first/last day of the 400 years of an era) and shown to fail for mixed offsets; raising a count never removes; expired removed, protected kept, the delete-after boundary (== now is still protected; `passed` is strict). Correspondence: real apply output (order, keep flag, reasons) equals the "
                "model's on every case; real period predicates and jiff calendar equal the model's. Oracles on the real output: newest-first permutation, protected/expired, "
                "keep<=>reason, monotonicity under raising each count.")
 
@@ -57,5 +59,6 @@ def is_property_failure(op, impl, model):
     # the model's apply is proved equal to the rank specification and the model's predicates are proved to
     # be equality of the documented period keys: a differing apply / eq result, a panic or an oracle
     # failure on this input is a failing input.  cal/add disagreements are calendar-model mismatches.
+    # mark: must_keep / must_delete disagreeing with "delete-after has passed (strictly)" is a failure of the last clause.
     t = op.split(" ")
-    return len(t) > 1 and t[1] in ("apply", "eq")
+    return len(t) > 1 and t[1] in ("apply", "eq", "mark")
